@@ -2,7 +2,7 @@
 From Coq Require Import List Bool Arith NArith QArith.
 Import ListNotations.
 Require Import Coin CoinWord Rare Chain XorConv.
-Require GenProofs_FrameNoise GenProofs_PauliChan.
+Require GenProofs_FrameNoise GenProofs_PauliChan GenProofs_Herald.
 
 (* the coin stage of biased_randomize_bits: exactly p_top_bits of the 256 equally likely 8-coin strings yield a 1, for every
    p_top_bits < 128 (every probability the stage is used for) *)
@@ -39,5 +39,10 @@ Proof. exact GenProofs_FrameNoise.frame_noise_routines_are_documented_mixtures. 
    (decoding regenerated from source); with C05_chain_is_disjoint each outcome fires with exactly its documented probability *)
 Theorem C05_pauli_channel_arguments_decoded_as_documented : GenProofs_PauliChan.paulichan_all_ok = true.
 Proof. exact GenProofs_PauliChan.pauli_channel_arguments_are_decoded_as_documented. Qed.
+(* HERALDED_ERASE in both simulators (bit usage executed symbolically from source for 70 consecutive events): every erasure uses two
+   generator bits no other erasure uses and always sets its herald; HERALDED_PAULI_CHANNEL_1 of the bulk sampler cuts the uniform draw
+   into intervals of lengths hx, hz, hy *)
+Theorem C05_heralded_erase_uses_fresh_bits : GenProofs_Herald.herald_all_ok = true.
+Proof. exact GenProofs_Herald.heralded_erase_uses_fresh_bits. Qed.
 Print Assumptions C05_coin_stage_probability. Print Assumptions C05_word_model_lanes_are_coin_stages.
 Print Assumptions C05_gap_sampling_is_bernoulli. Print Assumptions C05_chain_is_disjoint.
